@@ -17,7 +17,7 @@ from .core import Outcome, PropertySpec, enc
 from gemdat.collective import Collective  # noqa: E402
 
 PID = 'C12'
-MODULES = ['GProofs.Geometry', 'GProofs.C12', 'GProofs.C12Gen', 'GProofs.C12Win']
+MODULES = ['GProofs.Geometry', 'GProofs.C12', 'GProofs.C12Gen', 'GProofs.C12Win', 'GProofs.C12Exit']
 COLS = ['atom index', 'start site', 'destination site', 'start time', 'stop time']
 
 
